@@ -9,6 +9,8 @@ import (
 	"encoding/hex"
 	"encoding/json"
 	"fmt"
+	"io"
+	"log/slog"
 	"os"
 	"sort"
 	"strings"
@@ -93,6 +95,11 @@ func (o *Out) Close(extra map[string]any) {
 	}
 	b, _ := json.MarshalIndent(meta, "", " ")
 	os.WriteFile(o.dir+"/"+o.name+".meta.json", b, 0o644)
+}
+
+// quietLogs discards the application's slog output (it goes to stderr by default).
+func quietLogs() {
+	slog.SetDefault(slog.New(slog.NewTextHandler(io.Discard, &slog.HandlerOptions{Level: slog.LevelError + 8})))
 }
 
 func die(format string, a ...any) {
